@@ -1048,3 +1048,63 @@ package thrift
 //@   ensures okhdr && hdr & 0xffff == 3 && vs.FieldsLenD(b[12+nsz:], 65) >= 0 ==> istype(err, *ApplicationException)
 //@   ensures okhdr && hdr & 0xffff != 3 ==> msg.$nreads == old(msg.$nreads) + 1 && region(msg.$lastread) == region(b) && offset(msg.$lastread) == offset(b) + 12 + nsz && len(msg.$lastread) == len(b) - 12 - nsz
 //@   assigns msg.$nreads, msg.$lastread
+
+// ---- ReaderSkipDecoder: reads exactly what is asked for from an io.Reader into a pooled buffer ----
+// Its unread stream is the source's future $f; the bytes taken since the last Next are b[0:n], and
+// they are the stream bytes just before the current position (the window of $f's array that ends
+// where $f starts). b is nil or a live pool region owned by the decoder.
+
+//@ pred rsdMem(p) = !isnil(p.r) && 0 <= p.n && p.n <= len(p.b) && (cap(p.b) > 0 ==> allocated(p.b) && region(p.b).$pool == 1 && writable(p.b))
+//@ pred rsdWin(p) = eqbytes(p.b, 0, strwin(p.r.$f, 0 - p.n, p.n), 0, p.n)
+//@ pred rsdInv(p) = rsdMem(p) && rsdWin(p)
+// History constraint (transitive): n only grows, at least as many bytes leave the source as are
+// accounted for, and as long as the two agree (no failed SkipN in between) the window invariant holds.
+//@ pred rsdUsed(p) = len(old(p.r.$f)) - len(p.r.$f)
+//@ constraint ReaderSkipDecoder: same(self.r, old(self.r)) && (old(rsdMem(self)) ==> rsdMem(self) && self.n >= old(self.n) && rsdUsed(self) >= self.n - old(self.n) && (old(rsdWin(self)) && rsdUsed(self) == self.n - old(self.n) ==> rsdWin(self)))
+//@ model ReaderSkipDecoder.$u = self.r.$f
+//@ model ReaderSkipDecoder.$taken = self.n
+
+//@ func ReaderSkipDecoder.growSlow
+//@   arith int
+//@   props C02, C03, C08, C09
+//@   requires rsdMem(p) && 0 <= n && n <= 0xffffffffff
+//@   ensures rsdMem(p) && (old(rsdWin(p)) ==> rsdWin(p)) && p.n == old(p.n) && len(p.b) - p.n >= n && fresh(p.b)
+//@   assigns p.b
+//@   assigns forall g int :: g == region(p.b) && cap(p.b) > 0 ==> g.$pool
+
+//@ func ReaderSkipDecoder.Grow
+//@   arith int
+//@   props C02, C03, C08, C09
+//@   requires rsdMem(p) && 0 <= n && n <= 0xffffffffff
+//@   ensures rsdMem(p) && (old(rsdWin(p)) ==> rsdWin(p)) && p.n == old(p.n) && len(p.b) - p.n >= n && (fresh(p.b) || same(p.b, old(p.b)))
+//@   assigns p.b
+//@   assigns forall g int :: g == region(p.b) && cap(p.b) > 0 ==> g.$pool
+
+//@ func ReaderSkipDecoder.SkipN
+//@   arith int
+//@   props C02, C03, C08, C09
+//@   refines SkipDecoderIface.SkipN
+//@   requires rsdMem(p)
+//@   ensures rsdMem(p)
+//@   let F = p.r.$f
+//@   ensures err == nil && old(rsdWin(p)) ==> rsdWin(p)
+//@   ensures err == nil ==> region(buf) == region(p.b) && offset(buf) == offset(p.b) + old(p.n) && p.n == old(p.n) + n
+//@   assigns p.n, p.b, p.b[p.n:len(p.b)], p.r.$f, p.r.$ferr
+//@   assigns forall g int :: g == region(p.b) && cap(p.b) > 0 ==> g.$pool
+//@   loop 1 invariant 0 <= i && i <= n && p.n == old(p.n) && !isnil(p.r) && same(p.r, old(p.r)) && len(p.b) - p.n >= n
+//@   loop 1 invariant same(p.r.$f, F[i:]) && i <= len(F) && eqbytes(p.b, p.n, F, 0, i) && (old(rsdWin(p)) ==> eqbytes(p.b, 0, strwin(F, 0 - p.n, p.n), 0, p.n))
+//@   loop 1 invariant err != nil ==> len(p.r.$f) == 0
+//@   loop 1 decreases (err == nil ? 1 : 0) + n - i
+
+//@ func ReaderSkipDecoder.Next
+//@   arith int
+//@   props C02, C03, C08, C09
+//@   requires rsdInv(p)
+//@   let U = p.r.$f
+//@   let Rlo = vs.ValLenD(U, t, 63)
+//@   let Rhi = vs.ValLenD(U, t, 64)
+//@   ensures[g:hi] err == nil ==> Rhi >= 0 && len(b) == Rhi && eqbytes(b, 0, U, 0, Rhi) && same(p.r.$f, U[Rhi:])
+//@   ensures[g:lo] Rlo != -3 ==> (Rlo >= 0 ==> err == nil && len(b) == Rlo && eqbytes(b, 0, U, 0, Rlo) && same(p.r.$f, U[Rlo:])) && (Rlo < 0 ==> err != nil)
+//@   ensures same(p.r, old(p.r))
+//@   assigns p.n, p.b, p.b[0:len(p.b)], p.r.$f, p.r.$ferr
+//@   assigns forall g int :: g == region(p.b) && cap(p.b) > 0 ==> g.$pool
